@@ -415,10 +415,15 @@ theorem closeTop_inv {sh : Shape} {dim : Nat} {st st' : St} {line : Nat}
         · simp only [Except.ok.injEq] at h
           subst h
           exact ⟨rfl, rfl, h3, stackInv_tail h4⟩
-    | partition name prio level nr ne patches =>
-      simp only [closeTop, Except.ok.injEq] at h
-      subst h
-      exact ⟨rfl, rfl, h3, stackInv_tail h4⟩
+    | partition name prio level nr ne patches hv =>
+      simp only [closeTop] at h
+      split at h
+      · simp [gErr] at h
+      · split at h
+        · simp [gErr] at h
+        · simp only [Except.ok.injEq] at h
+          subst h
+          exact ⟨rfl, rfl, h3, stackInv_tail h4⟩
 
 /-! ### `openM` -/
 
@@ -434,11 +439,13 @@ theorem meshCreate_ok {st : St} {line : Nat} {m : Markup} {f : Frame}
   · split at h
     · simp [cErr] at h
     · rename_i hl _ sizes hs
-      simp only [Except.ok.injEq] at h
-      refine ⟨sizes, ?_, h.symm⟩
-      have := mapMOpt_length _ _ _ hs
-      simp at hl
-      omega
+      split at h
+      · simp [cErr] at h
+      · simp only [Except.ok.injEq] at h
+        refine ⟨sizes, ?_, h.symm⟩
+        have := mapMOpt_length _ _ _ hs
+        simp at hl
+        omega
 
 theorem topoCreate_ok {st : St} {line : Nat} {m : Markup} {sizes : List Nat}
     {have_ : List (Option (List (List Nat)))} {f : Frame}
@@ -455,13 +462,13 @@ theorem topoCreate_ok {st : St} {line : Nat} {m : Markup} {sizes : List Nat}
 
 theorem partitionCreate_ok {line : Nat} {m : Markup} {f : Frame}
     (h : partitionCreate line m = .ok f) :
-    ∃ name prio level nr ne patches, f = Frame.partition name prio level nr ne patches := by
+    ∃ name prio level nr ne patches hv, f = Frame.partition name prio level nr ne patches hv := by
   unfold partitionCreate at h
   repeat' split at h
   all_goals first | (simp [cErr, gErr] at h; done) | skip
   all_goals
     simp only [Except.ok.injEq] at h
-    exact ⟨_, _, _, _, _, _, h.symm⟩
+    exact ⟨_, _, _, _, _, _, _, h.symm⟩
 
 theorem meshOk_init {sh : Shape} {dim : Nat} {sizes : List Nat} (h : sizes.length = dim + 1) :
     meshOk sh dim sizes none (List.replicate dim none) := by
@@ -506,9 +513,9 @@ theorem openM_inv {sh : Shape} {dim : Nat} {st st' : St} {line : Nat} {m : Marku
         | (obtain ⟨sizes, hsz, rfl⟩ := meshCreate_ok (by assumption)
            simp only [Except.ok.injEq] at h; subst h
            exact ⟨rfl, rfl, h3, stackInv_push h4 (meshOk_init hsz) (fun _ _ _ _ hh => by cases hh)⟩)
-        | (obtain ⟨_, _, _, _, _, _, rfl⟩ := partitionCreate_ok (by assumption)
+        | (obtain ⟨_, _, _, _, _, _, _, rfl⟩ := partitionCreate_ok (by assumption)
            exact closeTop_inv ⟨rfl, rfl, h3, stackInv_push h4 (by trivial) (fun _ _ _ _ _ => by trivial)⟩ h)
-        | (obtain ⟨_, _, _, _, _, _, rfl⟩ := partitionCreate_ok (by assumption)
+        | (obtain ⟨_, _, _, _, _, _, _, rfl⟩ := partitionCreate_ok (by assumption)
            simp only [Except.ok.injEq] at h; subst h
            exact ⟨rfl, rfl, h3, stackInv_push h4 (by trivial) (fun _ _ _ _ _ => by trivial)⟩)
     | mesh sizes v topo =>
